@@ -354,7 +354,7 @@ def alphabet(full):
                 ('classImplementsOnly', 1, 2), ('classImplementsFirst', 1, 1), ('classImplements', SLOT_S, 2),
                 ('directlyProvides', 0, (0,)), ('directlyProvides', 0, (1,)), ('directlyProvides', 1, (0,)),
                 ('directlyProvides', 3, (2,)), ('directlyProvides', 0, ()), ('directlyProvides', 5, (2,)),
-                ('alsoProvides', 0, 1), ('alsoProvides', 0, 2), ('alsoProvides', 3, 1),
+                ('alsoProvides', 0, 0), ('alsoProvides', 0, 1), ('alsoProvides', 0, 2), ('alsoProvides', 3, 1),
                 ('noLongerProvides', 0, 0), ('noLongerProvides', 0, 1), ('directlyProvides', 4, (0,)),
                 ('newsub', None, 2), ('newsub', 'only', 2), ('newinst',), ('query',)]
     return ops
@@ -398,7 +398,7 @@ HARNESSES = [
             tiers=dict(quick=dict(budget_s=150, parts=16, params=dict(L=3)),
                        thorough=dict(budget_s=3000, parts=16, params=dict(L=4), impls=('py',))),
             encoded=_ENC,
-            bounds=_B + 'every history of <=3 (thorough 4, pure-Python build) ops from a 26-op alphabet (class declarations on K0/K1/K4/S, '
+            bounds=_B + 'every history of <=3 (thorough 4, pure-Python build) ops from a 27-op alphabet (class declarations on K0/K1/K4/S, '
                         'instance declarations on both K1 instances, the K3 instance, a late instance, the class object, creation of S / a late '
                         'instance, query-all)',
             outside='histories longer than the bound; classes whose __bases__ are reassigned; security proxies; Interface itself as a declared interface',
